@@ -155,9 +155,10 @@ class Repo:
                 try:
                     from .inline import unroll_literal_loops, sink_selected_callees
 
-                    from .inline import renumber
+                    from .inline import renumber, default_then_override
 
-                    n_changed = unroll_literal_loops(tree)
+                    n_changed = default_then_override(tree)
+                    n_changed += unroll_literal_loops(tree)
                     n_changed += sink_selected_callees(tree)
                     tree, exp = expand_unknown_helpers(tree, name, self.known_functions)
                     if exp:
